@@ -53,6 +53,41 @@ func (p *Prog) chanDesc(f *Func, e ast.Expr) string {
 func (p *Prog) isTimerChan(f *Func, e ast.Expr) (bool, ast.Expr) {
 	info := f.Pkg.TypesInfo
 	e = ast.Unparen(e)
+	// ctx.Done() of a context made by context.WithTimeout(parent, d) in this
+	// function (or an enclosing one): fires after d at the latest
+	if call, ok := e.(*ast.CallExpr); ok && len(call.Args) == 0 {
+		if se, ok := ast.Unparen(call.Fun).(*ast.SelectorExpr); ok && se.Sel.Name == "Done" {
+			if v, ok := identObj(info, se.X).(*types.Var); ok && !v.IsField() {
+				for x := f; x != nil; x = x.Parent {
+					var dur ast.Expr
+					n := 0
+					ast.Inspect(x.Body, func(y ast.Node) bool {
+						as, ok := y.(*ast.AssignStmt)
+						if !ok {
+							return true
+						}
+						for _, l := range as.Lhs {
+							if identObj(info, l) == types.Object(v) {
+								n++
+								if len(as.Rhs) == 1 && len(as.Lhs) == 2 {
+									if mk, ok := ast.Unparen(as.Rhs[0]).(*ast.CallExpr); ok && p.CalleeName(x, mk) == "context.WithTimeout" && len(mk.Args) == 2 {
+										dur = mk.Args[1]
+									}
+								}
+							}
+						}
+						return true
+					})
+					if n == 1 && dur != nil {
+						return true, dur
+					}
+					if n > 0 {
+						break
+					}
+				}
+			}
+		}
+	}
 	if call, ok := e.(*ast.CallExpr); ok {
 		switch p.CalleeName(f, call) {
 		case "time.After":
